@@ -5,16 +5,29 @@ abstract codec, and the JSON printer/parser written out); theorems: lean/Props/C
 
 Flows (each case goes through the real steps AND the model):
   writefetch  filewrite{json,yaml,toml} then fetch{json,yaml,toml} (key / root merge / plain-string
-              input / whole-context payload / encodings), plus the file context parser on the same file;
-              for JSON the bytes of the written file are compared with the Lean printer.
+              input / whole-context payload / encodings: the same `encoding` entry on both steps, ANOTHER one
+              on the fetch step, a config.default_encoding), plus the file context parser on the same file
+              (whatever the write encoding: the model says whether it reads the file back);
+              for JSON the bytes of the written file are compared with the Lean printer. A write the
+              serialiser refuses is compared on the exact exception class (per format and cause).
+  parser      filewriteX under config.default_encoding D with an `encoding` entry (absent / None / a name),
+              then get_parsed_context(args) of the Xfile parser under config.default_encoding D'; args =
+              [path] / the path split at its spaces / [] / None / a file that is not there; mapping and
+              non-mapping top levels. Model: `fileWriteStored` + `fileParserArgs` (op codec.parser).
   fileformat  fileformat{json,yaml,toml} (in place or to out) on a rendered source document; the
               output is read back with the plain loader of the format.
-  jsonprint   Lean printer vs json.dumps(indent=2, ensure_ascii=False), byte for byte.
-  jsonparse   Lean parser vs json.loads on printed, re-spaced, escaped and corrupted texts.
+  jsonprint   Lean printer vs pypyr's JsonRepresenter.dump under config.json_indent in {0,1,2,4,None,-1} x
+              config.json_ascii in {False,True} (and vs json.dumps with the same arguments), byte for byte; documents with
+              int/bool/None/float keys, floats, non-BMP characters and DEL; parse(print d) vs json.loads(json.dumps d).
+  jsonparse   Lean parser vs json.loads on printed, re-spaced, escaped and corrupted texts (ints AND floats compared).
   session     2-4 operations (write->fetch/parser round trip, read of a given source text, fileformat over a list of
               given source texts) in ONE process, and each operation again alone in a FRESH process; the model's
               `runSession` on the same session.
 Monitors (judged on the implementation alone, pypyr's own formatter as oracle for "formatted value"):
+  a mapping written by filewriteX and read by the Xfile parser - whose arguments spell the path and whose
+  encoding (config default; toml utf-8) is the one the file is in - comes back equal to the formatted payload
+  (signature flow=parser). A file written in ANOTHER encoding than the parser reads with is not held against the
+  parser (it accepts no encoding option): expected per the model, counted `parser:other-encoding`;
   every operation of a session observes what it observes alone in a fresh process;
   fetched value == formatted payload (typed equality, dict order ignored);
   parse(fileformat output) == formatter applied to parse(source).
@@ -43,8 +56,12 @@ TRUSTED = [
 ASSUMPTIONS = [
     'YAML (ruamel.yaml) and TOML (tomli_w/tomllib) codecs are third-party: their round trip `dec (enc d) = d` is a '
     'HYPOTHESIS of write_fetch_roundtrip / fileformat_doc_spec and is validated by generation only, not proved',
-    'JSON: `Json.parse (Json.print d) = d` is proved for objects with distinct string keys, arrays, strings, ints, '
-    'bools and null; floats are printed/compared by correspondence but are outside the proved domain; the Lean '
+    'JSON: `Json.parse (Json.print o d) = coerceKeys d` is proved for every indent (int or None) / ensure_ascii setting and '
+    'every document json.dump accepts: str/int/float/bool/None keys (written as strings: what comes back is the COERCED '
+    'key, so a formatted payload with a non-string key does not read back equal - the monitors expect the coerced '
+    'document there), arrays, strings, ints, bools, null and the floats whose repr is their exact decimal expansion '
+    '(dyadic n/2^k, at most 15 digits, no exponent form); other floats (0.1, 1e16, 1e-5) go through the real steps and the '
+    'value-level model only; -0.0/NaN/Infinity/lone surrogates/indent given as a string are outside. The Lean '
     'printer/parser are tied to json.dump/json.load by correspondence (byte-for-byte / value-for-value)',
     'formatting expressions are those of the basic formatter model ({key}, {{, }}); strings with lone surrogates, '
     'non-string mapping keys merged at context root, YAML anchors/tags/dates/binary, TOML datetimes are outside '
@@ -53,6 +70,20 @@ ASSUMPTIONS = [
     '(`Stored`), reading with another name is an error in the model - used on the positive side only (the output of '
     'fileformat{json,yaml} is in the OUT encoding on every route); utf-8/utf-16/utf-32/latin-1 exercised where every '
     'character is encodable; toml files are binary (no encoding options)',
+    'write step / fetch step / file context parser at file level (`fileWriteStored`, `fetchStored`, `fileParserArgs`): '
+    'here `Stored.readAs` is used on BOTH sides - same encoding name = the text, another name = UnicodeDecodeError. Real '
+    'codecs may decode to garbage instead (latin-1 reads any bytes), read the same text (ASCII-only text in utf-8 / '
+    'latin-1; utf-8-sig reads plain utf-8) or differ by a byte-order mark only: the harness decodes the written bytes '
+    'with the other encoding and compares "raises or returns something else than what was written" when the difference is '
+    'visible, the positive side when the text is the same, nothing when only a BOM differs. `open(encoding=None)` = '
+    'platform default, ASSUMED utf-8 (checked at run time: cases are rejected otherwise); encoding names are compared as '
+    'strings in the model (canonical names generated); UnicodeEncodeError on write (character outside the encoding) is '
+    'not modelled (not generated)',
+    'a failed write leaves the target file truncated / partly written on disk; the model leaves the file system as it was '
+    '(not observed by the harness)',
+    'error class of a refused payload: json TypeError, yaml RepresenterError, toml AttributeError (top level not a '
+    'mapping) / TypeError (node inside); payloads with tuples, sets, bytes (which json/ruamel/tomli_w write as something '
+    'else) and json mappings with non-string keys (coerced by json.dump) are outside the modelled domain and not generated',
     'STATELESSNESS: in the model a codec is a pair of functions (`Codec.enc`/`Codec.dec`) and `runSession` threads '
     'nothing but the files from one operation to the next, so `RoundTrips` - stated per call - is meaningful. The real '
     'loaders are objects (ruamel.yaml keeps the version of the last %YAML directive on the YAML() instance): that the '
@@ -85,6 +116,20 @@ KEYS = ['a', 'b', 'key', '', 'true', '1', 'null', ' spaced ', 'ü', 'a.b', 'a b'
         'under_score', '日本', '"q"', "it's", 'multi\nline', '#h', 'x:y', '[k]', 'A', '0', 'é{ku}', '😀']
 INTS = [0, 1, -1, 7, 42, -300, 2 ** 31, 2 ** 63 - 1, -2 ** 63, 10 ** 30, 123456789012345678901234567890]
 FLOATS = [0.5, -2.25, 1.0, 0.0, 100.0, 1e10, 3.125, -0.0009765625, 65536.5]
+# JSON only ------------------------------------------------------------------------------------------------------
+# floats whose repr is NOT their exact short decimal expansion (outside `fltOk`): real steps + value-level model only
+FLOATS_OUT = [0.1, 1e16, 1e-05, 2.0 ** -14, 1 / 3, 123456789.12345679, 5e-324, 1.7976931348623157e308]
+FLOATS_IN = FLOATS + [-1.0, 1.5, 0.0001220703125, 99999999999999.5, 999999999999999.0, 0.75, -1024.0625, 4503599627370496.0 / 2 ** 13]
+# non-BMP, DEL, the code points around the surrogate block, the last code point
+JSON_STR = ['𝄞', 'a\U0001F600b\x7f', '\U0010ffff', '\ud7ff\ue000', '\uffff', '\x7f', '\x80\x9f', '~\x7f\x80',
+            '😀𝄞\x7f{k1}', '\U00010000', 'é\u2028"\\/\b\f']
+# keys json.dump coerces to strings; key expressions that FORMAT to such keys (k2 = 42, kb = False, kn = None, kf = 1.5)
+JSON_KEYS_NONSTR = [42, -5, 0, True, False, None, 1.5, -0.25, 10 ** 20]
+JSON_KEY_EXPR = ['{k2}', '{kb}', '{kn}', '{kf}']
+KEY_FORMATS_TO = {'{k2}': 42, '{kb}': False, '{kn}': None, '{kf}': 1.5}
+# (config.json_indent, config.json_ascii); 'none' = json_indent None; -1 prints like 0
+JSON_CFG = [(2, False), (0, False), (1, True), (4, True), (2, True), (0, True), ('none', False), ('none', True),
+            (-1, False), (4, False), (1, False)]
 
 
 # --------------------------------------------------------------------------
@@ -106,30 +151,46 @@ def gen_str(rng, exprs=True):
 def gen_scalar(rng, fmt):
     r = rng.random()
     if r < 0.55:
+        if fmt == 'json' and r < 0.05:
+            return rng.choice(JSON_STR)
         return gen_str(rng)
     if r < 0.72:
         return rng.choice(INTS)
     if r < 0.82:
+        if fmt == 'json':
+            return rng.choice(FLOATS_OUT) if r < 0.735 else rng.choice(FLOATS_IN)
         return rng.choice(FLOATS)
     if r < 0.92 or fmt == 'toml':
         return rng.random() < 0.5
     return None
 
 
-def gen_key(rng, fmt, used):
+def gen_key(rng, fmt, used, nonstr=False, keyexpr=False):
     for _ in range(20):
         k = rng.choice(KEYS)
         if fmt == 'yaml' and rng.random() < 0.08:
             k = rng.choice([1, 0, -5, 12])
-        if k not in used:
+        if fmt == 'json':
+            r = rng.random()
+            if r < 0.03:
+                k = rng.choice(JSON_STR)
+            elif r < 0.06 and keyexpr:
+                k = rng.choice(JSON_KEY_EXPR)                # expressions formatting to int/bool/None/float keys
+            elif r < 0.12 and nonstr:
+                k = rng.choice(JSON_KEYS_NONSTR)
+        # Python compares keys across types (0 == False, 1 == True == 1.0): a mapping whose FORMATTED keys collide that
+        # way is one entry in Python and two in the shared formatter model (Val equality) - not generated
+        fk = KEY_FORMATS_TO.get(k, k) if isinstance(k, str) else k
+        if k not in used and fk not in used:
             used.add(k)
+            used.add(fk)
             return k
     k = f'k{len(used)}'
     used.add(k)
     return k
 
 
-def gen_doc(rng, fmt, depth, top=False):
+def gen_doc(rng, fmt, depth, top=False, nonstr=False, keyexpr=False):
     r = rng.random()
     if top and (fmt == 'toml' or r < 0.75):
         kind = 'dict'
@@ -141,14 +202,37 @@ def gen_doc(rng, fmt, depth, top=False):
         kind = 'dict' if r < 0.75 else 'list'
     n = rng.choice([0, 1, 2, 2, 3, 3, 4, 6])
     if kind == 'list':
-        return [gen_doc(rng, fmt, depth - 1) for _ in range(n)]
+        return [gen_doc(rng, fmt, depth - 1, nonstr=nonstr, keyexpr=keyexpr) for _ in range(n)]
     used = set()
     out = {}
     for _ in range(n):
-        k = gen_key(rng, fmt, used)
-        if top and not isinstance(k, str):
+        k = gen_key(rng, fmt, used, nonstr, keyexpr)
+        if top and not isinstance(k, str) and fmt != 'json':
             k = f'k{k}'
-        out[k] = gen_doc(rng, fmt, depth - 1)
+        out[k] = gen_doc(rng, fmt, depth - 1, nonstr=nonstr, keyexpr=keyexpr)
+    return out
+
+
+def json_directed_payloads():
+    """JSON only: keys json.dump coerces (raw, and as expressions that format to them), colliding after coercion,
+    floats, non-BMP characters / DEL as values and keys. (payload, raw non-string keys inside?)"""
+    out = []
+    for s in JSON_STR:
+        out.append(({'v': s, s: [s, {s: 'x{k1}'}]}, False))
+    out.append(({'floats': FLOATS_IN, 'neg': [-0.5, -100.0], 'f': {'x': 0.5}}, False))
+    out.append(({'floats-out': FLOATS_OUT}, False))
+    # expressions as keys: fileformat sources can carry them (the source keys are strings)
+    out.append(({'{k2}': 'int key', 'n': {'{kb}': 1, '{kn}': [2], '{kf}': 'f', 'plain': '{k2}'}}, False))
+    out.append(({'{k2}': 'a', '42': 'b'}, False))                 # collide after coercion: first position, last value
+    out.append(({'42': 'b', '{k2}': 'a', 'l': [{'{kn}': 1, 'null': 2, 'z': 3}]}, False))
+    out.append(({'{kb}': {'{kb}': {'{kb}': 'deep'}}, 'False': 'py spelling', 'false': 'json spelling'}, False))
+    out.append(({'{kf}': 1.5, '1.5': '{kf}'}, False))
+    # raw non-string keys (writefetch only)
+    out.append(({'m': {42: 'x', True: 'y', None: 'z', 1.5: 'w', -5: [{0: 0}]}}, True))
+    out.append(({'m': {1: 'a', '1': 'b'}, 'r': {'1': 'b', 1: 'a'}, 'big': {10 ** 20: 1, -0.25: 2}}, True))
+    out.append(({'m': {False: 'py False', 'false': 'str', 'False': 'other', None: 1, 'null': 2, 'None': 3}}, True))
+    out.append(({7: 'top-level int key', 'k': 'v{k1}'}, True))
+    out.append(([{1: [{2: [{3: 'deep {k1}'}]}]}], True))
     return out
 
 
@@ -196,12 +280,22 @@ def directed_payloads(fmt):
 # cases
 # --------------------------------------------------------------------------
 
-def writefetch_case(fmt, payload, variant, encoding=None):
-    return {'flow': 'writefetch', 'format': fmt, 'payload': enc(payload), 'variant': variant, 'encoding': encoding}
+def writefetch_case(fmt, payload, variant, encoding=None, jcfg=None):
+    c = {'flow': 'writefetch', 'format': fmt, 'payload': enc(payload), 'variant': variant, 'encoding': encoding}
+    if jcfg is not None and fmt == 'json':
+        c['jcfg'] = list(jcfg)          # [config.json_indent | 'none', config.json_ascii] for the real steps and the model
+    return c
 
 
-def fileformat_case(fmt, doc, inplace, encoding=None, encopts=None, route=None):
+def jcfg_of(case):
+    j = case.get('jcfg')
+    return (j[0], j[1]) if j else (None, None)
+
+
+def fileformat_case(fmt, doc, inplace, encoding=None, encopts=None, route=None, jcfg=None):
     c = {'flow': 'fileformat', 'format': fmt, 'doc': enc(doc), 'inplace': inplace, 'encoding': encoding}
+    if jcfg is not None and fmt == 'json':
+        c['jcfg'] = list(jcfg)
     if encopts is not None:
         # {encoding?, encodingIn?, encodingOut?} x route inplace | out | same | empty
         c['encopts'] = encopts
@@ -217,6 +311,11 @@ ENCOPTS = [{'encodingIn': 'utf-16', 'encodingOut': 'utf-8'}, {'encodingIn': 'utf
            {'encodingIn': 'utf-8', 'encodingOut': 'latin-1'}, {'encodingIn': 'utf-32', 'encodingOut': 'utf-16'},
            {'encoding': 'utf-16'}, {'encoding': 'latin-1'}, {'encoding': 'utf-32', 'encodingIn': 'utf-8', 'encodingOut': 'utf-16'}]
 ROUTES = ['inplace', 'out', 'same', 'empty']
+# non-ASCII content every encoding below can hold (latin-1 included), so that reading with another encoding shows
+PARSER_DOCS = [{'título': 'Señor {k1}', 'größe': [1, 2.5, True, 'naïve {k1}', 'ünï'], 'nested': {'e': 'é', 'n': 42, 'plain': 'true'}},
+               {'a': 'é', 'k{k1}': {'ü': ['ñ', 1, 'x y']}, '1': 'ß'}]
+W_ENCS = ['<absent>', None, 'utf-8', 'utf-16', 'latin-1', 'utf-8-sig']     # the write step's `encoding` entry
+D_ENCS = [None, 'utf-8', 'utf-16', 'latin-1']                               # config.default_encoding
 ENC_DOCS = [{'título': 'Señor {k1}', 'k{k1}-größe': [1, 2.5, True, 'naïve {k1}', 'ünï'], 'nested': {'e': 'é', 'n': 42, 'plain': 'true'}},
             {'emoji': '😀 {ku}', '日本': ['語', {'k': 'é→{k1}'}], 'n': 1}]
 
@@ -247,67 +346,157 @@ def model_ctx(fmt, case):
             f['key'] = 'out'
         elif variant == 'emptykey':
             f['key'] = ''
-        if case.get('encoding') and fmt != 'toml':
-            f['encoding'] = case['encoding']
+        fe = case.get('fenc', case.get('encoding'))      # `fenc`: the fetch step is given ANOTHER encoding
+        if fe and fmt != 'toml':
+            f['encoding'] = fe
         ctx2[fkey] = f
     return ctx, ctx2, path
 
 
-def err_class(name):
+EXACT_ERRORS = {'TypeError', 'AttributeError', 'AssertionError', 'FileNotFoundError',
+                'ruamel.yaml.representer.RepresenterError'}
+
+
+def err_class(name, exact=False):
+    """The class of an error as compared between model and implementation. pypyr's own errors: always the exact
+    class. `exact`: also the classes the model distinguishes by cause — the serialiser's refusal of a payload
+    (json TypeError / ruamel RepresenterError / tomli_w AttributeError for a non-mapping top level, TypeError for a
+    node inside), the parsers' AssertionError / TypeError / FileNotFoundError. Loader-level errors (JSONDecodeError,
+    ruamel's scanner/reader errors, TOMLDecodeError, UnicodeDecodeError): only "it raised"."""
     if name is None:
         return None
     if name.startswith('pypyr.'):
         return name
-    return 'error'          # serialiser / loader level: only "it raised" is compared
+    if exact and name in EXACT_ERRORS:
+        return name
+    return 'error'          # loader level: only "it raised" is compared
+
+
+def visible_difference(raw, text, other_enc):
+    """How reading the bytes `raw` (which hold `text`) with `other_enc` compares with reading them with the encoding
+    they were written in: 'visible' — the decode raises or gives another text; 'same' — the very same text (ASCII-only
+    text in utf-8 / latin-1, utf-8-sig reading plain utf-8, ...); 'bom' — the same text but for a byte-order mark at
+    the start (a utf-8-sig file read as utf-8: json.load refuses the mark, ruamel skips it). The model's
+    `Stored.readAs` is idealised (another encoding NAME = UnicodeDecodeError): 'visible' pairs are compared on the
+    negative side ("raises, or returns something else than what was written"), 'same' pairs on the positive side,
+    'bom' pairs not at all."""
+    try:
+        other = raw.decode(other_enc)
+    except (UnicodeError, LookupError):
+        return 'visible'
+    if other == text:
+        return 'same'
+    return 'bom' if other.lstrip('\ufeff') == text.lstrip('\ufeff') else 'visible'
+
+
+def compare_parser(rec, pm, pr, raw, text, penc, written):
+    """Model (`codec.parser`, file level) vs the real file context parser. `pm`: the model's answer {'parser': …,
+    'parserEnc': …, 'write': …}; `pr`: the implementation's {'ok'|'none'|'err'}; `written`: the canonical wire
+    document the write step serialised (None when there was no write). Fills rec['mismatch'] on a difference."""
+    mp = pm['parser']
+    if 'ok' in pr:
+        pimpl = {'ok': I.sort_wire(pr['ok'])}
+    elif 'none' in pr:
+        pimpl = {'none': True}
+    else:
+        pimpl = {'err': err_class(pr['err'], exact=True)}
+    if 'ok' in mp:
+        pmodel = {'ok': I.sort_wire(mp['ok'])}
+    elif 'none' in mp:
+        pmodel = {'none': True}
+    elif mp['err']['name'] == 'UnicodeDecodeError':
+        # the file is stored in another encoding than the parser reads with: the negative side of
+        # parser_roundtrip_iff_encoding = "raises, or returns something else than what was written"
+        rec['counts'].append('parser:other-encoding')
+        vis = visible_difference(raw, text, penc) if raw is not None and text is not None else 'visible'
+        if vis == 'same':
+            rec['counts'].append('parser:other-encoding-same-text')
+            pmodel = {'ok': written}
+        elif vis == 'bom':
+            rec['counts'].append('parser:other-encoding-bom-only')
+            pmodel = pimpl
+        else:
+            pmodel = {'not-read-back': True}
+            if 'err' in pr or 'none' in pr or pimpl.get('ok') != written:
+                pimpl = {'not-read-back': True}
+    else:
+        pmodel = {'err': err_class(mp['err']['name'], exact=True)}
+    rec['counts'].append('parser:' + next(iter(pmodel)))
+    if pmodel != pimpl:
+        rec['mismatch'] = (rec.get('mismatch', '') + '; file context parser differs').strip('; ')
+        rec['model'] = dict(rec.get('model') or {}, parser=pmodel)
+        rec['impl'] = dict(rec.get('impl') or {}, parser=pimpl, parser_detail=pr if 'err' in pr else None)
+    return pmodel, pimpl
 
 
 def run_writefetch(drv, case):
     fmt = case['format']
     ctx, ctx2, path = model_ctx(fmt, case)
-    wkey = I.WRITE[fmt][1]
+    wkey, fkey = I.WRITE[fmt][1], I.FETCH[fmt][1]
+    dflt = case.get('dflt')                 # config.default_encoding while the case runs (None = not set)
+    wenc = 'utf-8' if fmt == 'toml' else (case.get('encoding') or dflt or 'utf-8')
+    fenc = 'utf-8' if fmt == 'toml' else (case.get('fenc', case.get('encoding')) or dflt or 'utf-8')
     rec = {'case': case, 'counts': ['flow:writefetch', 'fmt:' + fmt, 'variant:' + case['variant'],
                                     'enc:' + str(case.get('encoding'))]}
+    if 'fenc' in case or dflt:
+        rec['counts'].append(f'wf-enc:write={wenc},fetch={fenc},default={dflt}')
+    jind, jasc = jcfg_of(case)
+    if case.get('jcfg'):
+        rec['counts'].append(f'jcfg:indent={jind},ascii={jasc}')
     # ---- model
     try:
-        m = drv.ask('codec.writefetch', format=fmt, ctx=enc(ctx), ctx2=enc(ctx2))
+        m = drv.ask('codec.writefetch', format=fmt, ctx=enc(ctx), ctx2=enc(ctx2), dflt=dflt)
     except common.Reject as e:
         rec['reject'] = str(e)
         rec['counts'].append('rejected')
         return rec
+    fetch_other = False
     if 'err' in m['write']:
-        model = {'write': {'err': err_class(m['write']['err']['name'])}}
+        model = {'write': {'err': err_class(m['write']['err']['name'], exact=True)}}
     else:
         model = {'write': 'ok', 'payload': I.sort_wire(m['write']['ok'][0][1])}
         f = m['fetch']
-        model['fetch'] = {'ok': I.sort_wire(f['ok'])} if 'ok' in f else {'err': err_class(f['err']['name'])}
+        if 'ok' in f:
+            model['fetch'] = {'ok': I.sort_wire(f['ok'])}
+        elif f['err']['name'] == 'UnicodeDecodeError':
+            fetch_other = True              # the fetch step was given another encoding than the write step
+            model['fetch'] = {'not-read-back': True}
+        else:
+            model['fetch'] = {'err': err_class(f['err']['name'], exact=True)}
     # ---- implementation
     I.clean_dir()
-    cfg = ctx[wkey]
-    w, wctx = I.run_write(fmt, {k: v for k, v in ctx.items() if k != wkey}, cfg['path'], cfg.get('payload'),
-                          'payload' in cfg, cfg.get('encoding'))
+    with I.json_config(jind, jasc):
+        w = I.run_write_cfg(fmt, {k: v for k, v in ctx.items() if k != wkey}, ctx[wkey], dflt)
     impl = {}
-    text = None
+    text = raw = None
     if 'err' in w:
-        impl['write'] = {'err': err_class(w['err'])}
+        impl['write'] = {'err': err_class(w['err'], exact=True)}
         rec['impl_detail'] = w
+        rec['counts'].append('write-error:' + fmt + ':' + w['err'])
     else:
         impl['write'] = 'ok'
-        fkey = I.FETCH[fmt][1]
-        fcfg = ctx2[fkey]
-        as_string = isinstance(fcfg, str)
-        r = I.run_fetch(fmt, {k: v for k, v in ctx2.items() if k != fkey}, path,
-                        None if as_string else fcfg.get('key'), as_string, case.get('encoding'))
-        impl['fetch'] = {'ok': I.sort_wire(r['ok'])} if 'ok' in r else {'err': err_class(r['err'])}
+        r = I.run_fetch_cfg(fmt, {k: v for k, v in ctx2.items() if k != fkey}, ctx2[fkey], dflt)
+        impl['fetch'] = {'ok': I.sort_wire(r['ok'])} if 'ok' in r else {'err': err_class(r['err'], exact=True)}
         if 'err' in r:
             rec['impl_detail'] = r
         # the value the fetch step stored (what the property talks about)
         try:
             with open(path, 'rb') as fh:
                 raw = fh.read()
-            text = raw.decode((case.get('encoding') or 'utf-8') if fmt != 'toml' else 'utf-8')
+            text = raw.decode(wenc)
             impl['payload'] = I.sort_wire(enc(I.plain(I.load(fmt, text))))
         except Exception as e:
             impl['payload'] = {'unreadable': type(e).__name__}
+        if fetch_other:
+            if text is not None and visible_difference(raw, text, fenc) != 'visible':
+                # the same bytes under both encoding names (ASCII-only text in utf-8 / latin-1, ...): outside the
+                # idealisation of `readAs`; the fetch side is not compared on this case
+                rec['counts'].append('fetch:other-encoding-same-bytes')
+                model['fetch'] = impl['fetch']
+            else:
+                rec['counts'].append('fetch:other-encoding')
+                if 'err' in r or not _fetched_equals(impl['fetch'].get('ok'), case, model['payload']):
+                    impl['fetch'] = {'not-read-back': True}
     rec['model'], rec['impl'] = model, impl
     # the model's round trip rests on the hypothesis dec (enc d) = d for the third-party codec: check it directly
     hyp = True
@@ -318,25 +507,46 @@ def run_writefetch(drv, case):
     if model != impl and hyp is not False:
         rec['mismatch'] = 'observations differ'
     rec['counts'].append('write:' + ('ok' if impl['write'] == 'ok' else 'err'))
-    # ---- JSON: bytes of the file vs the Lean printer
+    # ---- JSON: bytes of the file vs the Lean printer (on the payload the model's write step hands to the serialiser,
+    #      keys NOT yet coerced, under the same indent / ensure_ascii), the Lean parser on the file, and the codec
+    #      identity parse(print d) = coerceKeys d against what the model's fetch stored
     if fmt == 'json' and text is not None and 'payload' in model and 'write' in m and 'ok' in m['write']:
         try:
-            t = drv.ask('codec.jsonprint', doc=m['write']['ok'][0][1])['text']
+            wp = drv.ask('codec.write', format=fmt, ctx=enc(ctx)).get('ok', {}).get('payload')
+            if wp is None:
+                raise common.Reject('write op gave no payload')
+            jp = drv.ask('codec.jsonprint', doc=wp, **I.model_json_opts(jind, jasc))
+            t = jp['text']
             rec['counts'].append('jsonbytes')
             if t != text:
                 rec['mismatch'] = (rec.get('mismatch', '') + '; Lean JSON printer differs from the file written').strip('; ')
                 rec['model'] = dict(model, text=t)
                 rec['impl'] = dict(impl, text=text)
+            if I.sort_wire(jp['coerced']) != model['payload']:
+                rec['mismatch'] = (rec.get('mismatch', '') + '; coerceKeys differs from what the model stored').strip('; ')
             p = drv.ask('codec.jsonparse', text=text)
-            if 'ok' in p and I.sort_wire(p['ok']) != impl.get('payload'):
-                rec['mismatch'] = (rec.get('mismatch', '') + '; Lean JSON parser differs from json.load on the file').strip('; ')
+            if 'ok' in p:
+                rec['counts'].append('jsonbytes-parsed')
+                if I.sort_wire(p['ok']) != impl.get('payload'):
+                    rec['mismatch'] = (rec.get('mismatch', '') + '; Lean JSON parser differs from json.load on the file').strip('; ')
+                if p['ok'] != jp['coerced']:
+                    rec['mismatch'] = (rec.get('mismatch', '') + '; Lean parse(file) != coerceKeys(payload)').strip('; ')
+            else:
+                rec['mismatch'] = (rec.get('mismatch', '') + '; Lean JSON parser declines the file written: ' + next(iter(p))).strip('; ')
         except common.Reject:
             rec['counts'].append('jsonbytes-rejected')
-    # ---- monitor: fetched value == formatted payload (pypyr's own formatter as oracle)
-    if impl['write'] == 'ok' and 'ok' in impl.get('fetch', {}):
+    # ---- monitor: fetched value == formatted payload (pypyr's own formatter as oracle); it speaks of a fetch step
+    #      that reads with the encoding the write step wrote in
+    agree = I.canonical_encoding(wenc) == I.canonical_encoding(fenc)
+    if not agree:
+        pass
+    elif impl['write'] == 'ok' and 'ok' in impl.get('fetch', {}):
         whole = case['variant'] == 'whole'
-        src_ctx = {k: v for k, v in wctx.items()} if whole else dict(ctx)
-        want = I.real_format(ctx, dict(ctx) if whole else dec(case['payload']))
+        want = I.real_format(ctx, dict(ctx) if whole else dec(case['payload']), fmt)
+        if fmt == 'json' and 'ok' in want:
+            plain_want = I.real_format(ctx, dict(ctx) if whole else dec(case['payload']))
+            if plain_want != want:
+                rec['counts'].append('json-keys-coerced')
         if 'ok' in want:
             want_w = I.sort_wire(want['ok'])
             got_ctx = dict((json.dumps(k), v) for k, v in impl['fetch']['ok']['d'])
@@ -351,29 +561,162 @@ def run_writefetch(drv, case):
             rec['monitor'] = {'holds': ok, 'want': want_w, 'got': got}
     elif impl['write'] == 'ok' and 'err' in impl.get('fetch', {}) and case['variant'] in ('key', 'whole'):
         # the payload was written, a destination key was given, and the fetch step raised
-        want = I.real_format(ctx, dict(ctx) if case['variant'] == 'whole' else dec(case['payload']))
+        want = I.real_format(ctx, dict(ctx) if case['variant'] == 'whole' else dec(case['payload']), fmt)
         if 'ok' in want:
             rec['monitor'] = {'holds': False, 'want': I.sort_wire(want['ok']),
                               'got': {'raised': rec.get('impl_detail', {}).get('err'),
                                       'msg': rec.get('impl_detail', {}).get('msg')}, 'via': 'fetch-raised'}
-    # ---- file context parser on the same file
-    if impl['write'] == 'ok' and (case.get('encoding') in (None, 'utf-8')) and hyp is not False:
-        pr = I.run_parser(fmt, path)
+    # ---- file context parser on the same file (it reads with config.default_encoding, whatever the write step's
+    #      `encoding` was: the model says which of the two sides of parser_roundtrip_iff_encoding this is)
+    if impl['write'] == 'ok' and hyp is not False and text is not None:
+        pr = I.run_parser_args(fmt, [path], dflt)
+        penc = 'utf-8' if fmt == 'toml' else (dflt or 'utf-8')
         try:
-            pm = drv.ask('codec.parser', format=fmt, doc=m['write']['ok'][0][1])
-            pmodel = {'ok': I.sort_wire(pm['ok'])} if 'ok' in pm else {'err': 'error'}
-            pimpl = {'ok': I.sort_wire(pr['ok'])} if 'ok' in pr else {'err': 'error'}
-            rec['counts'].append('parser')
-            if pmodel != pimpl:
-                rec['mismatch'] = (rec.get('mismatch', '') + '; file context parser differs').strip('; ')
-                rec['model'] = dict(rec['model'], parser=pmodel)
-                rec['impl'] = dict(rec['impl'], parser=pimpl)
-            if 'ok' in pr and rec.get('monitor', {}).get('holds') and case['variant'] in ('key', 'whole'):
+            pm = drv.ask('codec.parser', format=fmt, ctx=enc(ctx), args=[path], dflt=dflt)
+            compare_parser(rec, pm, pr, raw, text, penc, model.get('payload'))
+            if 'ok' in pr and rec.get('monitor', {}).get('holds') and case['variant'] in ('key', 'whole') \
+                    and I.canonical_encoding(wenc) == I.canonical_encoding(penc) \
+                    and isinstance(rec['monitor']['want'], dict) and 'd' in rec['monitor']['want']:
                 if I.sort_wire(pr['ok']) != rec['monitor']['want']:
                     rec['monitor'] = {'holds': False, 'want': rec['monitor']['want'], 'got': I.sort_wire(pr['ok']),
                                       'via': 'parser'}
         except common.Reject:
             rec['counts'].append('parser-rejected')
+    return rec
+
+
+def _fetched_equals(fetched_ctx, case, payload_w):
+    """Whether the context after the fetch step holds the written payload (at the key, or merged at root)."""
+    if fetched_ctx is None:
+        return False
+    got = dict((json.dumps(k), v) for k, v in fetched_ctx['d'])
+    if case['variant'] in ('key', 'whole'):
+        return got.get(json.dumps('out')) == payload_w
+    return 'd' in payload_w and all(got.get(json.dumps(k)) == v for k, v in payload_w['d'])
+
+
+# --------------------------------------------------------------------------
+# the file context parsers: encodings (config.default_encoding, NOT the write step's option), the arguments
+# (single-space join; None / [] per format), the top-level check
+# --------------------------------------------------------------------------
+
+ABSENT = '<absent>'      # the write step's input has no `encoding` entry (None = an explicit `encoding: None`)
+SAME = '<same>'          # config.default_encoding at parse time = at write time
+
+
+def parser_case(fmt, payload, wenc=ABSENT, dflt=None, dflt_parse=SAME, args='single', path=None, write=True):
+    """write `payload` with filewrite<fmt> (`encoding` entry `wenc`) under config.default_encoding = `dflt`, then
+    get_parsed_context(args) of the <fmt>file parser under config.default_encoding = `dflt_parse`.
+    args: single [path] | split (path split at its spaces) | empty [] | none None | wrong (names no file)."""
+    return {'flow': 'parser', 'format': fmt, 'payload': enc(payload), 'wenc': wenc, 'dflt': dflt,
+            'dfltParse': dflt_parse, 'args': args, 'path': path or f'out dir/my file.{fmt}', 'write': write}
+
+
+def parser_args(case):
+    a, path = case['args'], case['path']
+    if a == 'single':
+        return [path]
+    if a == 'split':
+        return path.split(' ')
+    if a == 'empty':
+        return []
+    if a == 'none':
+        return None
+    if a == 'wrong':
+        return ['no such', 'file.' + case['format']]
+    raise ValueError(a)
+
+
+def run_parser_flow(drv, case):
+    fmt = case['format']
+    payload = dec(case['payload'])
+    ctxv = dict(CTXV)
+    if fmt == 'toml':
+        del ctxv['kn']
+    wkey = I.WRITE[fmt][1]
+    cfg = {'path': case['path'], 'payload': payload}
+    if case['wenc'] != ABSENT:
+        cfg['encoding'] = case['wenc']                   # a string, or None = `encoding: None` spelled out
+    dflt = case['dflt']
+    dparse = dflt if case['dfltParse'] == SAME else case['dfltParse']
+    args = parser_args(case)
+    ctx = dict(ctxv)
+    ctx[wkey] = cfg
+    # the encodings by the documentation of the steps (independent of the model): toml is utf-8; an `encoding`
+    # entry wins, spelled-out None = platform default; else config.default_encoding, else platform default
+    plat = I.platform_encoding()
+    wenc = 'utf-8' if fmt == 'toml' else (case['wenc'] if isinstance(case['wenc'], str) and case['wenc'] != ABSENT
+                                          else plat if case['wenc'] is None else (dflt or plat))
+    penc = 'utf-8' if fmt == 'toml' else (dparse or plat)
+    agree = I.canonical_encoding(wenc) == I.canonical_encoding(penc)
+    rec = {'case': case, 'counts': ['flow:parser', 'fmt:' + fmt, 'parser-args:' + case['args'],
+                                    f'parser-enc:{fmt}:write={wenc},parser={penc}' + (':agree' if agree else ':differ')]}
+    if plat != 'utf-8':
+        rec['reject'] = f'platform default encoding is {plat}: the model assumes utf-8'
+        rec['counts'].append('platform-not-utf8')
+        return rec
+    try:
+        m = drv.ask('codec.parser', format=fmt, ctx=enc(ctx) if case['write'] else None, args=args,
+                    dflt=dflt, dfltParse=dparse)
+    except common.Reject as e:
+        rec['reject'] = str(e)
+        rec['counts'].append('rejected')
+        return rec
+    I.clean_dir()
+    model, impl = {}, {}
+    raw = text = written = None
+    hyp = True
+    if case['write']:
+        w = I.run_write_cfg(fmt, ctxv, cfg, dflt)
+        if 'err' in m['write']:
+            model['write'] = {'err': err_class(m['write']['err']['name'], exact=True)}
+        else:
+            written = I.sort_wire(m['write']['ok'][0][1])
+            model['write'] = {'ok': True, 'stored-in': I.canonical_encoding(m['write']['enc']), 'payload': written}
+            if fmt != 'json':
+                hyp = I.third_party_roundtrip(fmt, dec(m['write']['ok'][0][1]))
+        if 'err' in w:
+            impl['write'] = {'err': err_class(w['err'], exact=True)}
+            rec['impl_detail'] = w
+            rec['counts'].append('write-error:' + fmt + ':' + w['err'])
+        else:
+            # the file must hold the payload IN the encoding the model says (decode + plain loader of the format)
+            impl['write'] = {'ok': True, 'stored-in': None, 'payload': None}
+            try:
+                with open(case['path'], 'rb') as fh:
+                    raw = fh.read()
+                text = raw.decode(m['write']['enc'] if 'ok' in m['write'] else wenc)
+                impl['write']['payload'] = I.sort_wire(enc(I.plain(I.load(fmt, text))))
+                impl['write']['stored-in'] = I.canonical_encoding(m['write']['enc']) if 'ok' in m['write'] else wenc
+            except Exception as e:
+                impl['write']['payload'] = {'unreadable': type(e).__name__}
+        if hyp is False:
+            rec['counts'].append('codec-hypothesis-false:' + fmt)
+            return rec
+    rec['model'], rec['impl'] = model, impl
+    if model != impl:
+        rec['mismatch'] = 'write step: observations differ'
+    pr = None
+    if 'parser' in m:
+        pr = I.run_parser_args(fmt, args, dparse)
+        compare_parser(rec, m, pr, raw, text, penc, written)
+        if I.canonical_encoding(m['parserEnc']) != I.canonical_encoding(penc):
+            rec['mismatch'] = (rec.get('mismatch', '') + f"; model: the parser reads with {m['parserEnc']}, documented {penc}").strip('; ')
+    # ---- monitor, from the property text: a payload written by the filewrite step and read back with the matching
+    #      file context parser yields a value equal to the formatted payload. The parser takes no encoding option: it is
+    #      held to that when the file is in the encoding the parser reads with (config default / platform / toml utf-8)
+    #      — or is the same bytes in both — and the arguments spell the path.
+    if pr is not None and case['write'] and impl.get('write', {}).get('ok') and args and ' '.join(args) == case['path']:
+        want = I.real_format(ctx, payload)
+        same_bytes = raw is not None and text is not None and visible_difference(raw, text, penc) == 'same'
+        if 'ok' in want and isinstance(dec(want['ok']), dict) and (agree or same_bytes):
+            w_w = I.sort_wire(want['ok'])
+            if 'ok' in pr:
+                got = I.sort_wire(pr['ok'])
+                rec['monitor'] = {'holds': got == w_w, 'want': w_w, 'got': got, 'via': 'parser'}
+            else:
+                rec['monitor'] = {'holds': False, 'want': w_w, 'via': 'parser-raised',
+                                  'got': {'raised': pr.get('err', 'returned None'), 'msg': pr.get('msg')}}
     return rec
 
 
@@ -386,6 +729,9 @@ def run_fileformat(drv, case):
     encopts, route = case.get('encopts'), case.get('route')
     rec = {'case': case, 'counts': ['flow:fileformat', 'fmt:' + fmt, 'inplace:' + str(case['inplace']),
                                     'enc:' + str(case.get('encoding'))]}
+    jind, jasc = jcfg_of(case)
+    if case.get('jcfg'):
+        rec['counts'].append(f'jcfg:indent={jind},ascii={jasc}')
     req = {}
     if encopts is not None:
         e_in, e_out = I.enc_in_out(encopts)
@@ -425,7 +771,8 @@ def run_fileformat(drv, case):
         rec['counts'].append('codec-hypothesis-false-on-source')
         rec['hypothesis'] = {'format': fmt, 'doc': case['doc'], 'loaded': enc(src_loaded)}
         return rec
-    o, out_text = I.run_fileformat(fmt, ctx, src_text, case['inplace'], case.get('encoding'), encopts, route)
+    with I.json_config(jind, jasc):
+        o, out_text = I.run_fileformat(fmt, ctx, src_text, case['inplace'], case.get('encoding'), encopts, route)
     if 'err' in o:
         impl = {'err': err_class(o['err'])}
         rec['impl_detail'] = o
@@ -445,8 +792,25 @@ def run_fileformat(drv, case):
     if model != impl and hyp is not False:
         rec['mismatch'] = 'observations differ'
     rec['counts'].append('result:' + ('ok' if 'ok' in impl else 'err'))
+    # ---- JSON: bytes of the output vs the Lean printer on the model's formatted document (keys not yet coerced)
+    if fmt == 'json' and out_text is not None and 'ok' in m:
+        try:
+            fd = drv.ask('codec.fmtdoc', ctx=enc(ctx), doc=case['doc'])
+            if 'ok' in fd:
+                jp = drv.ask('codec.jsonprint', doc=fd['ok'], **I.model_json_opts(jind, jasc))
+                rec['counts'].append('jsonbytes')
+                if jp['text'] != out_text:
+                    rec['mismatch'] = (rec.get('mismatch', '') + '; Lean JSON printer differs from the output file').strip('; ')
+                    rec['model'] = dict(model, text=jp['text'])
+                    rec['impl'] = dict(impl, text=out_text)
+                if I.sort_wire(jp['coerced']) != model.get('ok'):
+                    rec['mismatch'] = (rec.get('mismatch', '') + '; coerceKeys differs from the model output').strip('; ')
+        except common.Reject:
+            rec['counts'].append('jsonbytes-rejected')
     if 'ok' in impl or 'unreadable' in impl:
-        want = I.real_format(ctx, src_loaded)
+        want = I.real_format(ctx, src_loaded, fmt)
+        if fmt == 'json' and 'ok' in want and I.real_format(ctx, src_loaded) != want:
+            rec['counts'].append('json-keys-coerced')
         if 'ok' in want:
             w = I.sort_wire(want['ok'])
             rec['monitor'] = {'holds': impl.get('ok') == w, 'want': w, 'got': impl.get('ok', impl)}
@@ -454,35 +818,70 @@ def run_fileformat(drv, case):
 
 
 def run_jsonprint(drv, case):
+    """Lean printer vs pypyr's JsonRepresenter.dump under config.json_indent / json_ascii (and vs json.dumps called
+    with the same arguments), byte for byte; Lean parse(print d) vs json.loads(text) and vs coerceKeys d."""
     doc = dec(case['doc'])
-    rec = {'case': case, 'counts': ['flow:jsonprint']}
+    jind, jasc = jcfg_of(case)
+    rec = {'case': case, 'counts': ['flow:jsonprint', f'jcfg:indent={jind},ascii={jasc}']}
     try:
-        t = drv.ask('codec.jsonprint', doc=case['doc'])['text']
+        jp = drv.ask('codec.jsonprint', doc=case['doc'], **I.model_json_opts(jind, jasc))
     except common.Reject as e:
         rec['reject'] = str(e)
+        rec['counts'].append('jsonprint-rejected')
         return rec
-    want = json.dumps(doc, indent=2, ensure_ascii=False)
+    t = jp['text']
+    with I.json_config(jind, jasc):
+        try:
+            want = I.pypyr_json_dump(doc)
+        except Exception as e:   # noqa: BLE001
+            want = {'raised': type(e).__name__}
+    ref = json.dumps(doc, indent=(2 if jind is None else None if jind == 'none' else jind),
+                     ensure_ascii=bool(jasc))
     rec['model'], rec['impl'] = {'text': t}, {'text': want}
     if t != want:
-        rec['mismatch'] = 'Lean JSON printer differs from json.dumps(indent=2, ensure_ascii=False)'
+        rec['mismatch'] = (f'Lean JSON printer differs from JsonRepresenter.dump under json_indent={jind}, json_ascii={jasc}'
+                           + ('' if want == ref else ' (which also differs from json.dumps with these arguments)'))
+    elif want != ref:
+        rec['mismatch'] = 'JsonRepresenter.dump differs from json.dumps with the configured arguments'
+    if I.has_nonstr_key(doc):
+        rec['counts'].append('jsonprint:nonstr-keys')
+    if contains_float(doc):
+        rec['counts'].append('jsonprint:floats')
+    if jasc and isinstance(want, str) and '\\ud' in want:
+        rec['counts'].append('jsonprint:surrogate-pair')
     p = drv.ask('codec.jsonparse', text=t)
-    if 'outside' in p:
-        rec['counts'].append('roundtrip-outside')
-    elif p.get('ok') != case['doc']:
-        rec['mismatch'] = (rec.get('mismatch', '') + '; Lean parse(print d) != d').strip('; ')
+    back = enc(json.loads(ref))
+    if 'ok' not in p:
+        rec['mismatch'] = (rec.get('mismatch', '') + '; Lean parse(print d) is not ok: ' + next(iter(p))).strip('; ')
         rec['model']['reparsed'] = p
+    elif p['ok'] != jp['coerced'] or p['ok'] != back:
+        rec['mismatch'] = (rec.get('mismatch', '') + '; Lean parse(print d) / coerceKeys d / json.loads(json.dumps d) differ').strip('; ')
+        rec['model']['reparsed'] = p
+        rec['model']['coerced'] = jp['coerced']
+        rec['impl']['reparsed'] = back
     return rec
 
 
-def contains_float_or_odd(v):
+def contains_float(v):
     if isinstance(v, float):
         return True
+    if isinstance(v, dict):
+        return any(contains_float(k) or contains_float(x) for k, x in v.items())
+    if isinstance(v, list):
+        return any(contains_float(x) for x in v)
+    return False
+
+
+def contains_odd(v):
+    """Values the wire form / the model cannot hold: lone surrogates, -0.0, NaN, Infinity."""
+    if isinstance(v, float):
+        return v != v or v in (float('inf'), float('-inf')) or (v == 0.0 and str(v)[0] == '-')
     if isinstance(v, str):
         return any(0xD800 <= ord(c) <= 0xDFFF for c in v)
     if isinstance(v, dict):
-        return any(contains_float_or_odd(k) or contains_float_or_odd(x) for k, x in v.items())
+        return any(contains_odd(k) or contains_odd(x) for k, x in v.items())
     if isinstance(v, list):
-        return any(contains_float_or_odd(x) for x in v)
+        return any(contains_odd(x) for x in v)
     return False
 
 
@@ -492,7 +891,9 @@ def run_jsonparse(drv, case):
     p = drv.ask('codec.jsonparse', text=text)
     try:
         v = json.loads(text)
-        impl = {'outside': True} if contains_float_or_odd(v) else {'ok': enc(v)}
+        impl = {'outside': True} if contains_odd(v) else {'ok': enc(v)}
+        if contains_float(v):
+            rec['counts'].append('parse:float-in-python')
     except json.JSONDecodeError:
         impl = {'bad': True}
     except RecursionError:
@@ -500,10 +901,14 @@ def run_jsonparse(drv, case):
     rec['model'], rec['impl'] = p, impl
     rec['counts'].append('parse:' + next(iter(impl)))
     if 'outside' in p:
-        # model declines (float, NaN, lone surrogate): acceptable only if Python did not reject the text
+        # model declines (a float that is not a short exact decimal, exponent, NaN, lone surrogate): acceptable only if
+        # Python did not reject the text
+        rec['counts'].append('parse:model-outside')
         if 'bad' in impl and not case.get('maybe_float'):
             rec['counts'].append('parse:model-outside-python-bad')
         return rec
+    if 'ok' in p and 'ok' in impl and contains_float(v):
+        rec['counts'].append('parse:float-compared')
     if p != impl:
         rec['mismatch'] = 'Lean JSON parser differs from json.loads'
     return rec
@@ -543,11 +948,20 @@ def lookalike_payload(rng=None):
     return {'v': vals[:3], keys[0]: vals[3], keys[1]: {keys[2]: [vals[4], {'deep': vals[5]}]}, 'f': 'x{k1}', 'i': 7}
 
 
-def op_roundtrip(fmt, payload, reader):
+def op_roundtrip(fmt, payload, reader, encoding=None, dflt=ABSENT, name=None, args=None):
+    """`encoding`: the `encoding` entry of the write step (and of the fetch step when it is the reader); `dflt`:
+    config.default_encoding while this op runs (restored afterwards); `args`: what the parser is called with."""
     if fmt == 'toml':
         payload = _no_none(payload)
-    return {'kind': 'roundtrip', 'format': fmt, 'payload': enc(payload), 'ctx': enc(SESSION_CTX), 'reader': reader,
-            'name': 'o.' + fmt}
+    op = {'kind': 'roundtrip', 'format': fmt, 'payload': enc(payload), 'ctx': enc(SESSION_CTX), 'reader': reader,
+          'name': name or 'o.' + fmt}
+    if encoding:
+        op['encoding'] = encoding
+    if dflt != ABSENT:
+        op['dflt'] = dflt
+    if args is not None:
+        op['args'] = args
+    return op
 
 
 def _no_none(v):
@@ -602,6 +1016,17 @@ def directed_sessions():
     # formats interleaved
     out.append(session_case([op_fetchraw('yaml', RAW_YAML['v11-lookalikes'], 'fetch'), op_roundtrip('json', look, 'fetch'),
                              op_roundtrip('toml', look, 'fetch'), op_roundtrip('yaml', look, 'fetch')], 'mixed-formats'))
+    # encodings inside a session: a round trip under another config.default_encoding (parser as reader: it reads with
+    # the config default), or with an `encoding` entry (fetch as reader), then round trips under the configuration as
+    # it was — every op observes what it observes alone; a path with spaces handed to the parser in pieces
+    nonascii = dict(look, **{'título': 'Señor é', 'größe': ['ü', 'x{k1}']})
+    for fmt in ('json', 'yaml', 'toml'):
+        for d in ('utf-16', 'latin-1'):
+            out.append(session_case([op_roundtrip(fmt, nonascii, 'parser', dflt=d),
+                                     op_roundtrip(fmt, nonascii, 'parser'),
+                                     op_roundtrip(fmt, nonascii, 'fetch', encoding='utf-16'),
+                                     op_roundtrip(fmt, nonascii, 'parser', dflt=None, name='my out file.' + fmt,
+                                                  args=['my', 'out', 'file.' + fmt])], f'encodings-{fmt}-{d}'))
     return out
 
 
@@ -796,7 +1221,7 @@ def run_session(drv, case):
 
 
 RUNNERS = {'writefetch': run_writefetch, 'fileformat': run_fileformat, 'jsonprint': run_jsonprint,
-           'jsonparse': run_jsonparse, 'session': run_session}
+           'jsonparse': run_jsonparse, 'session': run_session, 'parser': run_parser_flow}
 
 
 def run_case(drv, case):
@@ -902,15 +1327,27 @@ def json_texts(rng, docs, n):
                 out.append(t[:i] + rng.choice('{}[],:"\\0-1 etnu.x\n\x01') + t[i:])
             else:
                 out.append(t + rng.choice([',', ']', '}', ' x', '1', 'null', '[]']))
+    rng.shuffle(out)
+    out = out[:n] if n else out
+    # always: floats - short exact decimals (read exactly), non-dyadic / long / exponent forms (model: outside), malformed
+    out += ['0.5', '-2.25', '1.0', '1.00', '0.50', '0.1', '3.125', '65536.5', '-0.0009765625', '0.0', '-0.0', '-0.00', '1.5e3',
+            '123456789012345.5', '12345678901234.5', '99999999999999.5', '999999999999999.0', '1.7976931348623157e308',
+            '4.9e-324', '0.30000000000000004', '1.0E+2', '[0.5,1.25]', '{"a":0.5,"b":[-0.75, 1e2]}', '9007199254740993.0',
+            '0.000030517578125', '0.0001220703125', '00.5', '0.5.5', '1.e5', '1.5e', '1.5e+', '.5e1', '-.5', '0.5e-2',
+            '2.5 ', ' 2.5', '[2.5,]', '-1.0', '-12.625', '1.5x', '1.5.', '0.', '-', '-x', '1.0000000000000002',
+            '0.25e', '10.0', '100.125', '[1.0, 2, 3.5, "4.5"]', '5E-1', '5e0', '1e400', '-1e400', '0.999999999999999',
+            '4294967296.0', '0.5000000000000000', '1.50000000000000', '0.0000000000000']
     out += ['', ' ', 'nul', 'null', ' true ', 'false', 'tru', '0', '-0', '-', '01', '1 2', '1.', '1.5', '1e5', '1E+2',
             '1e', '-1', '[1,]', '[,1]', '[1 2]', '{"a":1,}', '{,}', '{"a" 1}', '{"a":}', '{a:1}', "{'a':1}", '"\\u00e9"',
             '"\\ud83d\\ude00"', '"\\ud83d"', '"\\ude00"', '"\\uD83D\\uDE00"', '"\\u12"', '"\\u12G4"', '"\\x41"',
             '"\\/"', '"\\b\\f\\n\\r\\t\\"\\\\"', '"tab\there"', '"nl\nx"', '"\x7f"', '"unterminated', '[[[[]]]]',
             '[[[[', '{"a":{"a":{"a":{}}}}', '{"a":1,"a":2,"b":3,"a":4}', 'NaN', 'Infinity', '-Infinity', '[NaN]',
             '\ufeff1', '1\x00', ' \n\t\r[ \n\t\r] \n\t\r', '"\\u+123"', '"\\u 123"', '"\\u0x12"', '1_0', '+1', '.5',
-            '00', '-01', '[-]', '"a" "b"', '[1]]', '{}{}', '123456789012345678901234567890', '-9223372036854775809']
-    rng.shuffle(out)
-    return out[:n] if n else out
+            '00', '-01', '[-]', '"a" "b"', '[1]]', '{}{}', '123456789012345678901234567890', '-9223372036854775809',
+            '"\\ud834\\udd1e"', '"\\uDBFF\\uDFFF"', '"\\ud800\\udc00"', '"\\ud7ff\\ue000\\uffff"', '"\\ud834x"', '"\\ud834\\n"',
+            '"\\ud834\\u0041"', '"\\ud834\\ud834\\udd1e"', '"\\u007f\\u0080"', '{"\\ud83d\\ude00": "\\u00e9"}',
+            '{"1": 1, "true": 2, "null": 3, "1.5": 4}']
+    return out
 
 
 # --------------------------------------------------------------------------
@@ -1071,12 +1508,20 @@ def absorb(res, rec):
         res.violation(case, detail, signature=sig, impl={'problem': pr})
     mon = rec.get('monitor')
     if mon is not None and not mon['holds']:
-        flow = case['flow']
+        flow = 'parser' if mon.get('via') in ('parser', 'parser-raised') else case['flow']
         if mon.get('via') == 'fetch-raised':
             top = kind_of(mon['want'])
             cause = 'fetch-raised-on-top-level-' + top
             detail = (f"writefetch {case['format']}: the payload was written but the fetch step raised "
                       f"{mon['got'].get('raised')}: {mon['got'].get('msg')} (top-level {top}, destination key given)")
+            a = mon['want']
+        elif mon.get('via') == 'parser-raised':
+            cause = 'parser-raised-although-the-file-is-in-the-encoding-it-reads-with:' + str(mon['got'].get('raised'))
+            detail = (f"parser {case['format']}: the payload was written by the filewrite step (encoding entry "
+                      f"{case.get('wenc')!r}, config.default_encoding {case.get('dflt')!r}) and the file context parser, "
+                      f"called with args {parser_args(case)!r} under config.default_encoding "
+                      f"{(case.get('dflt') if case.get('dfltParse') == SAME else case.get('dfltParse'))!r}, did not return it: "
+                      f"{mon['got'].get('raised')}: {mon['got'].get('msg')}")
             a = mon['want']
         else:
             if isinstance(mon['got'], dict) and 'unreadable' in mon['got']:
@@ -1085,7 +1530,7 @@ def absorb(res, rec):
                 what, a, b = first_diff(mon['want'], mon['got'])
             cause = cause_of(what, a)
             detail = (f"{flow} {case['format']}: " +
-                      ('value read back differs from the formatted payload' if flow == 'writefetch'
+                      ('value read back differs from the formatted payload' if flow in ('writefetch', 'parser')
                        else 'output document differs from the source with every string node formatted') +
                       f" at a {what} node: wanted {json.dumps(a)[:160]}, got {json.dumps(b)[:160]}")
         sig = {'flow': flow, 'format': case['format'], 'cause': cause}
@@ -1114,6 +1559,21 @@ def build_cases(env):
                 if (fmt == 'toml' or v in ('root', 'emptykey', 'string')) and not isinstance(p, dict):
                     continue
                 cases.append(writefetch_case(fmt, p, v))
+        if fmt == 'json':
+            # keys json.dump coerces, floats, non-BMP / DEL; every config.json_indent x config.json_ascii setting
+            jd = json_directed_payloads()
+            for i, (p, raw) in enumerate(jd):
+                for j, cfg in enumerate(JSON_CFG if i < 14 else JSON_CFG[:3]):
+                    v = (VARIANTS[(i + j) % 2] if isinstance(p, dict) else 'key')
+                    cases.append(writefetch_case(fmt, p, v, None, cfg))
+                    if not raw:
+                        cases.append(fileformat_case(fmt, p, inplace=((i + j) % 2 == 0), jcfg=cfg))
+            for cfg in JSON_CFG:
+                for p in dps[-8:] + [dps[80 % len(dps)], dps[28 % len(dps)], dps[29 % len(dps)]]:
+                    cases.append(writefetch_case(fmt, p, 'key', None, cfg))
+                    cases.append(fileformat_case(fmt, p, True, None, jcfg=cfg))
+            # tuple key: json.dump raises TypeError (keys must be str, int, float, bool or None)
+            cases.append(writefetch_case(fmt, {'m': {'{k3}': 1}}, 'key'))
         # negatives: not representable
         if fmt == 'toml':
             cases.append(writefetch_case(fmt, {'a': None}, 'key'))
@@ -1140,9 +1600,69 @@ def build_cases(env):
                 for d in ENC_DOCS:
                     if all(not has_char_outside(d, e) for e in I.enc_in_out(eo)):
                         cases.append(fileformat_case(fmt, d, route != 'out', None, eo, route))
+    # ---- the class of the error when the serialiser refuses the payload, per format and cause
+    O = common.Opaque
+    for fmt in ('json', 'yaml', 'toml'):
+        for p in ({'a': O(1)}, {'a': [1, {'b': O(2)}]}, [O(3)], O(4)):
+            cases.append(writefetch_case(fmt, p, 'key'))
+    for p in ([1, 2], ['a', {'b': 1}], 'x', 'text {k1}', 42, -1, 1.5, True,          # top level not a mapping
+              {'a': None}, {'a': [None]}, {'a': {'b': None}}, {'a': [{'b': None}]},   # no TOML type inside
+              {1: 'x'}, {'a': {1: 2}}, {'a': [{2: 'y'}]}, {True: 1},                  # key not a string
+              [], '', 0, 0.0, False, {}, None):                                       # falsy: refused by the step
+        cases.append(writefetch_case('toml', p, 'key'))
+    # ---- the fetch step given ANOTHER encoding than the write step; both under a config default
+    for fmt in ('json', 'yaml'):
+        for d in PARSER_DOCS:
+            for we, fe in (('utf-16', 'utf-8'), ('utf-8', 'utf-16'), ('latin-1', 'utf-8'), ('utf-8', 'latin-1'),
+                           ('utf-16', 'latin-1'), (None, 'utf-16'), ('utf-16', 'utf-16'), ('latin-1', 'latin-1')):
+                c = writefetch_case(fmt, d, 'key', we)
+                c['fenc'] = fe
+                cases.append(c)
+            for dflt in ('utf-16', 'latin-1', 'utf-8'):
+                for v in ('key', 'string', 'root'):
+                    c = writefetch_case(fmt, d, v, None)
+                    c['dflt'] = dflt
+                    cases.append(c)
+                c = writefetch_case(fmt, d, 'key', 'utf-8')
+                c['dflt'] = dflt
+                cases.append(c)
+    # ---- the file context parsers: write encoding x config.default_encoding, arguments, top level
+    for fmt in ('json', 'yaml', 'toml'):
+        for d in PARSER_DOCS:
+            for we in W_ENCS:
+                for dflt in D_ENCS:
+                    cases.append(parser_case(fmt, d, we, dflt))
+        for dflt, dparse in ((None, 'utf-16'), ('utf-16', None), ('latin-1', 'utf-8'), ('utf-16', 'utf-16'),
+                             ('utf-8', None), (None, 'utf-8')):
+            for we in (ABSENT, 'utf-16'):
+                cases.append(parser_case(fmt, PARSER_DOCS[0], we, dflt, dparse, 'split'))
+        for path in (f'out dir/my file.{fmt}', f'a  b/two  spaces .{fmt}', f'nospace.{fmt}', f' lead/x.{fmt}'):
+            for a in ('single', 'split'):
+                cases.append(parser_case(fmt, PARSER_DOCS[1], ABSENT, None, SAME, a, path))
+                cases.append(parser_case(fmt, PARSER_DOCS[1], 'utf-16', 'utf-16', SAME, a, path))
+        for a in ('empty', 'none', 'wrong'):
+            for write in (True, False):
+                for dflt in (None, 'utf-16'):
+                    cases.append(parser_case(fmt, PARSER_DOCS[0], ABSENT, dflt, SAME, a, write=write))
+        if fmt != 'toml':
+            for p in ([1, 2], ['é', {'k': 'v'}], 'just text é', 42, 1.5, True, None, []):
+                for a in ('single', 'split'):
+                    cases.append(parser_case(fmt, p, ABSENT, None, SAME, a))
+                cases.append(parser_case(fmt, p, 'utf-16', 'utf-16'))
+        for p in directed_payloads(fmt)[-8:]:
+            if isinstance(p, dict):
+                cases.append(parser_case(fmt, p, ABSENT, 'utf-16', SAME, 'split'))
     # ---- sessions
     cases += directed_sessions()
     n_directed = len(cases)
+    for i in range(env.n(90, 4000)):
+        fmt = ('json', 'yaml', 'toml')[i % 3]
+        p = gen_doc(rng, fmt, rng.choice([1, 2, 2, 3]), top=True)
+        if not isinstance(p, dict):
+            p = {'v': p}
+        cases.append(parser_case(fmt, p, rng.choice([ABSENT, ABSENT, None, 'utf-8', 'utf-16', 'utf-32']),
+                                 rng.choice([None, None, 'utf-8', 'utf-16']),
+                                 rng.choice([SAME, SAME, SAME, None, 'utf-16']), rng.choice(['single', 'split', 'split'])))
     for _ in range(env.n(40, 1500)):
         cases.append(random_session(rng))
     for i in range(env.n(30, 3000)):
@@ -1157,22 +1677,26 @@ def build_cases(env):
     n_rand = env.n(260, 26000)
     for i in range(n_rand):
         fmt = ('json', 'yaml', 'toml')[i % 3]
-        p = gen_doc(rng, fmt, rng.choice([1, 2, 2, 3, 4]), top=True)
+        p = gen_doc(rng, fmt, rng.choice([1, 2, 2, 3, 4]), top=True, nonstr=(i % 2 == 0), keyexpr=True)
+        jcfg = rng.choice(JSON_CFG) if fmt == 'json' and rng.random() < 0.7 else None
         if i % 2 == 0:
             v = rng.choice(VARIANTS)
             if v in ('root', 'emptykey', 'string') and not isinstance(p, dict):
                 v = 'key'
-            cases.append(writefetch_case(fmt, p, v))
+            cases.append(writefetch_case(fmt, p, v, None, jcfg))
         else:
-            cases.append(fileformat_case(fmt, p, rng.random() < 0.5))
+            cases.append(fileformat_case(fmt, p, rng.random() < 0.5, jcfg=jcfg))
     # ---- JSON printer / parser
-    jdocs = [p for p in directed_payloads('json')]
+    jdocs = [p for p, _raw in json_directed_payloads()] + [p for p in directed_payloads('json')]
     for _ in range(env.n(60, 2500)):
-        jdocs.append(gen_doc(rng, 'json', rng.choice([1, 2, 3, 5]), top=rng.random() < 0.7))
-    # printer/parser see documents as they are (no formatting): any string is fine
-    for d in jdocs:
-        cases.append({'flow': 'jsonprint', 'doc': enc(d)})
-    for t in json_texts(rng, [d for d in jdocs if not contains_float_or_odd(d)][:env.n(40, 1500)], env.n(400, 0)):
+        jdocs.append(gen_doc(rng, 'json', rng.choice([1, 2, 3, 5]), top=rng.random() < 0.7, nonstr=True))
+    # printer/parser see documents as they are (no formatting): any string is fine. Every settings pair on the
+    # directed JSON documents, a rotating one on the others.
+    nj = len(json_directed_payloads())
+    for i, d in enumerate(jdocs):
+        for cfg in (JSON_CFG if i < nj else [JSON_CFG[i % len(JSON_CFG)]]):
+            cases.append({'flow': 'jsonprint', 'doc': enc(d), 'jcfg': list(cfg)})
+    for t in json_texts(rng, [d for d in jdocs if not contains_odd(d)][:env.n(50, 1500)], env.n(500, 0)):
         cases.append({'flow': 'jsonparse', 'text': t, 'maybe_float': any(c in t for c in '.eE')})
     return cases, n_directed
 
@@ -1182,8 +1706,19 @@ def run(env, res):
                 'formatting expressions) as value and as key, all scalar kinds, empties, deep nesting, colliding keys, '
                 'each through write->fetch (key/root/empty key/string input/whole context), the file context parser and '
                 'fileformat (in place / out), x json|yaml|toml x encodings; random: nested payloads of depth <= 4; '
-                'JSON printer vs json.dumps byte-for-byte and parser vs json.loads on printed/re-spaced/escaped/'
-                'corrupted texts. Encoding family: fileformat{json,yaml} x 12 combinations of encoding/encodingIn/'
+                'refused payloads (object inside / at top level x 3 formats; toml: list, str, int, float, bool at top level, '
+                'None inside, non-string key, the falsy ones) compared on the exact exception class; write->fetch with '
+                'ANOTHER encoding on the fetch step and under config.default_encoding utf-16 / latin-1 / utf-8; file context '
+                'parsers: 3 formats x write encoding entry {absent, None, utf-8, utf-16, latin-1, utf-8-sig} x '
+                'config.default_encoding {None, utf-8, utf-16, latin-1} (and another default at parse time) on non-ASCII '
+                'mappings, args = [path] / path split at spaces (incl. double spaces, leading space) / [] / None / missing '
+                'file, non-mapping top levels, random payloads x random encodings; '
+                'JSON printer vs pypyr JsonRepresenter.dump / the file filewritejson wrote / the output of fileformatjson, '
+                'byte-for-byte under config.json_indent in {0,1,2,4,None,-1} x config.json_ascii in {False,True}; parser vs json.loads '
+                'on printed/re-spaced/escaped/corrupted texts, floats compared; JSON-only families: int/bool/None/float keys (raw, '
+                'and key expressions {k2}/{kb}/{kn}/{kf} that format to them, colliding after coercion) - expected value = the '
+                'formatted payload with keys as json.dump writes them; floats inside and outside the proved domain; non-BMP '
+                'characters, DEL, U+D7FF/U+E000/U+FFFF/U+10FFFF as values and keys. Encoding family: fileformat{json,yaml} x 12 combinations of encoding/encodingIn/'
                 "encodingOut x route {no out, out another file, out equal to in, out ''} x non-ASCII documents: the target "
                 'must decode with the OUT encoding and parse to the formatted source. Sessions (one process each): directed - '
                 'every source file with %YAML 1.1 / %YAML 1.2 / %TAG directives, tags, anchors read by fetchyaml / the yamlfile '
